@@ -601,8 +601,11 @@ func (c *Ctx) callByContract(fr *Frame, st *State, spec *FuncSpec, key string, a
 			c.assumeUnder(st, c.evalBool(env, cl.E))
 		}
 	}
-	for _, pc := range pconds {
-		c.assumeUnder(st, not(pc))
+	if len(pconds) > 0 {
+		// the call returns only if no panic condition held. This narrows the path condition of the continuation; it must
+		// not be asserted globally, or the panic exits recorded above (reach && pc) would become infeasible and every
+		// obligation about them vacuous.
+		st.reach = c.define("reach", "Bool", and(st.reach, not(or(pconds...))))
 	}
 	if _, tr := spec.Flags["trusted"]; tr {
 		c.note("contract of " + key + " is assumed, not proved (trusted)")
